@@ -161,6 +161,11 @@ impl Method for PhoneticMethod {
                 self.suggestion.cache.clear();
                 self.modified = modified;
             }
+        } else if self.modified != SystemTime::UNIX_EPOCH {
+            // The file is gone, so are its entries.
+            self.suggestion.user_autocorrect.clear();
+            self.suggestion.cache.clear();
+            self.modified = SystemTime::UNIX_EPOCH;
         }
     }
 
